@@ -1,4 +1,5 @@
 import BeffVerif.Props.C12
+import BeffVerif.Props.C12Nonempty
 open BeffVerif.C12
 #print axioms safeParse_errors_le_10
 #print axioms union_reports_one
@@ -6,3 +7,4 @@ open BeffVerif.C12
 #print axioms tuple_surplus_reported
 #print axioms printErrors_deterministic
 #print axioms empty_intersection_reports_nothing
+#print axioms report_nonempty
